@@ -718,7 +718,8 @@ def expected_fields(cli):
     import src_functions as sf
     main = {"calculate_scores": sf.CLI_CALCULATE_SCORES, "select_next_plate": sf.CLI_SELECT_NEXT_PLATE, "train_model": sf.CLI_TRAIN_MODEL,
             "reveal_plate": sf.CLI_REVEAL_PLATE, "prepare_retrospective_simulation": sf.CLI_PREPARE, "extract_screen_metadata": sf.CLI_EXTRACT_METADATA,
-            "calculate_distance_matrix": sf.CLI_DISTANCE_MATRIX, "evaluate_model": sf.CLI_EVALUATE_MODEL}
+            "calculate_distance_matrix": sf.CLI_DISTANCE_MATRIX, "evaluate_model": sf.CLI_EVALUATE_MODEL,
+            "analyze_model_evaluation": sf.CLI_ANALYZE}      # its `fields` include args.seed, read by main() itself
     ns = {"calculate_scores": sf._CS_NS_FIELDS, "select_next_plate": sf._SN_NS_FIELDS, "train_model": sf._TM_NS_FIELDS,
           "prepare_retrospective_simulation": sf._PR_NS_FIELDS}
     out = {"verbose": ([3], False)}                                   # log_config.configure_logging(args)
@@ -732,8 +733,6 @@ def expected_fields(cli):
             out.setdefault(a, _cfg_kind(t))
     if cli == "calculate_distance_matrix":                            # its get_args() is not translated; read from the source text
         out.update(distance_metric=([2], False), distance_metric_param=([5], True))
-    if cli == "analyze_model_evaluation":                             # neither is its main()
-        out.update(model_evaluation=([2], False), screen=([2], False), thetas=([4, [2]], False), output_dir=([2], False))
     return out
 
 
